@@ -37,7 +37,7 @@ CHECKS = {
         technique="Kani loop-free harnesses on the extracted BridgeLock execute/record_deposit and BridgeUnlock run_mutable_checks/execute/record_withdrawal_event against a symbolic store with a deposit log",
         text="BridgeLock: Ok implies exactly one deposit (the action's) is cached together with an equal credit of the named bridge account in the same call, Err implies no deposit and no deposit event. "
              "BridgeUnlock: Ok implies the event id was unused in the pre-state and is recorded afterwards under (bridge address, id); a refused withdrawal consumes no id.",
-        note=KANI_TB + " Not under contract yet: BridgeTransfer, Ics20Withdrawal event-id use, ICS-20 receive deposits (known candidate F6), construction of the Deposit in CheckedBridgeLockImpl::new, publication of cached deposits into the block.",
+        note=KANI_TB + " Not under contract yet: BridgeTransfer, Ics20Withdrawal event-id use, construction of the Deposit in CheckedBridgeLockImpl::new, publication of cached deposits into the block.",
     ),
     "C05": dict(
         category="other",
@@ -131,9 +131,9 @@ CHECKS = {
     ),
     "C18": dict(
         category="proof",
-        technique="Kani loop-free harnesses on the extracted decrease_ibc_channel_balance, refund_tokens_to_sequencer_address, is_transfer/refund_source_zone and receive_tokens against a symbolic store; split obligation for known finding F6",
+        technique="Kani loop-free harnesses on the extracted decrease_ibc_channel_balance, refund_tokens_to_sequencer_address, is_transfer/refund_source_zone and receive_tokens against a symbolic store; recv_packet_execute with a snapshot/restore StateDelta stand-in",
         text="Escrow is debited by exactly the amount and never below zero (insufficient escrow is an error, nothing written); a refund releases escrow exactly iff the sequencer was the source zone and credits the recipient exactly; a successful receive debits escrow / registers the asset and credits exactly, with a deposit iff the recipient is a bridge account. "
-             "The no-side-effect-on-failure obligation of receive_tokens is a listed known finding (F6).",
+             "recv_packet_execute: an error acknowledgement implies that no balance, escrow, asset registration, deposit or event of the failed transfer survives; on success the nested delta is applied once and its events re-recorded.",
         note=KANI_TB + " Packet data carried pre-parsed; emit_bridge_lock_deposit is a stand-in; denoms have at most 2 trace segments. Not under contract: Ics20Withdrawal::execute (sending side), refund_tokens' rollup branch, timeout/ack handlers.",
     ),
 }
